@@ -179,9 +179,17 @@ def run_units(case, rng, cls):
             if not (np.all(np.isfinite(xA)) and np.all(np.isfinite(xB))):
                 return None, cov, maxerr, meta, faces, spec, (L, T, K), limname, 'singular system'
             e = residual_err(MB, K * xA, bB, solver_output=True)
-            maxerr['units-residual'] = max(maxerr.get('units-residual', 0.0), e)
+            # x_A is a solver output of system A: its backward error is relative to A's LARGEST row; a row that is small in A and
+            # (rescaled by its physical dimension) ordinary or dominant in B shows that error amplified by max(s_A)/s_A[row]
+            sA_ = absmv(MA, xA) + np.abs(bA)
+            pos_ = sA_[sA_ > 0]
+            ampA = float(np.max(sA_)) / float(np.min(pos_)) if pos_.size else 1.0
+            allowed_units = TOL + 64.0 * len(sA_) * np.finfo(float).eps * ampA
+            maxerr['units-residual'] = max(maxerr.get('units-residual', 0.0), e if allowed_units <= 1e-4 else 0.0)
             cov['unit_steps'] = cov.get('unit_steps', 0) + 1
-            if not (e <= TOL):
+            if allowed_units > 1e-4:
+                cov['unit_steps_not_decidable_row_scaling'] = cov.get('unit_steps_not_decidable_row_scaling', 0) + 1
+            elif not (e <= allowed_units):
                 r = sp.csr_array(MB) @ (K * xA) - bB
                 s = absmv(MB, K * xA) + np.abs(bB)
                 i = int(np.argmax(np.abs(r) / np.where(s > 0, s, 1)))
@@ -190,7 +198,7 @@ def run_units(case, rng, cls):
                 break
             n = MA.shape[0]
             if n <= 500:
-                cond = np.linalg.cond(MA.toarray(), 1)
+                cond = max(np.linalg.cond(MA.toarray(), 1), np.linalg.cond(MB.toarray(), 1))     # each solve has its own row scaling
                 if np.isfinite(cond) and cond < 1e10:
                     sc = float(np.max(np.abs(phiA.value))) + 1e-300
                     d = float(np.max(np.abs(np.asarray(phiB.value) / K - np.asarray(phiA.value)))) / sc
